@@ -52,3 +52,27 @@
 (define-fun ongrid ((r F64) (lo Int) (hi Int)) Bool
   (let ((k (to_int (+ (* 10.0 (fp.to_real r)) 0.5))))
     (and (not (fp.isNaN r)) (not (fp.isInfinite r)) (fp.eq r (tenth k)) (<= lo k) (<= k hi))))
+
+; golang.org/x/text/language tags (assumption A7: tags compare with ==; English and Japanese are different values)
+(declare-const Tag_English Tag)
+(declare-const Tag_Japanese Tag)
+(declare-const Tag_Und Tag)
+(assert (distinct Tag_English Tag_Japanese Tag_Und))
+
+; Go's math.Max (NaN if either is NaN; Max(-0,+0) = +0)
+(define-fun go_max ((x F64) (y F64)) F64
+  (ite (or (fp.isNaN x) (fp.isNaN y)) (_ NaN 11 53)
+  (ite (and (fp.isZero x) (fp.isZero y)) (ite (and (fp.isNegative x) (fp.isNegative y)) (_ -zero 11 53) (_ +zero 11 53))
+  (ite (fp.gt x y) x y))))
+
+; ---- io.Reader / text/template / bytes.Buffer (assumption A6): uninterpreted, deterministic functions ----
+(declare-sort Reader 0)
+(declare-const nil_reader Reader)
+(declare-fun mk_reader (String) Reader)                 ; a *bytes.Buffer holding exactly this text, seen as io.Reader
+(declare-fun reader_content (Reader) String)            ; what io.Copy reads from the reader when it does not fail
+(declare-fun reader_ok (Reader) Bool)                   ; the reader delivers its content without error
+; (facts about mk_reader are assumed per instance where the executor creates one: content, non-nil, no read error)
+(declare-fun tt_parse_ok (String) Bool)                 ; template.New(..).Parse(text) succeeds
+(declare-fun tt_exec_ok (String Int) Bool)              ; Execute(buf, data) succeeds
+(declare-fun tt_exec_out (String Int) String)           ; the text Execute writes when it succeeds
+(declare-fun tt_exec_partial (String Int) String)       ; the text already written when Execute fails
